@@ -368,6 +368,8 @@ static void c11(const Trace& t, const Analysis& A, Verdict& V) {
 		if (!winUsable(A, w)) continue;
 		if (w.type == WT_TEARDOWN) continue;
 		const Ev& e = t.ev[w.e - 1];
+		if ((w.processing || w.activation) && !f.bare && w.lostRequest.valid)
+			V.add(11, w.e - 1, F("the most recent request that no guard cancelled was %s, but it was never processed: previousTransition()=%s describes an earlier request", trStr(w.lostRequest).c_str(), trStr(e.prev).c_str()));
 		if (w.processing && !f.bare) {
 			if (w.survivor >= 0) {
 				const TrV& s = w.rounds[w.survivor].pend;
@@ -456,6 +458,15 @@ static void c15(const Trace& t, const Analysis& A, Verdict& V) {
 	}
 }
 
+// C14 (zoo part): access<T>() returns the very object whose callbacks run -- for every callback kind, injections and the root head
+static void c14(const Trace& t, const Analysis& A, Verdict& V) {
+	for (uint32_t i = 0; i < t.n; ++i) {
+		const Ev& e = t.ev[i];
+		if (e.kind != EV_CB || instDeadAt(A, i)) continue;
+		if (!e.thisOk) V.add(14, i, F("s%d.%s ran on an object that is not machine.access<T>() (who=%d)", sidOf(e.state), methName(e.method), e.who == WHO_SELF ? -1 : e.who));
+	}
+}
+
 // plans, serialization, logging, determinism: predicates_plans.cpp
 void c08(const Trace&, const Analysis&, Verdict&);
 void c09(const Trace&, const Analysis&, Verdict&);
@@ -481,6 +492,7 @@ void checkTrace(const Trace& t, const Analysis& A, uint32_t armed, Verdict& out)
 	if (on(10)) c10(t, A, out);
 	if (on(11)) c11(t, A, out);
 	if (on(12)) c12(t, A, out);
+	if (on(14)) c14(t, A, out);
 	if (on(15)) c15(t, A, out);
 	if (on(16)) c16(t, A, out);
 	if (on(17)) c17(t, A, out);
